@@ -260,6 +260,7 @@ def main():
             from checks import c18_chr
 
             c18_chr.run(report, findings, rp)
+            c18_chr.run_injection(report, findings, rp)
         except ImportError:
             report.notes.append("character-level part not built yet")
     finally:
